@@ -52,7 +52,7 @@ impl Controller for StaticResourceController {
             if md.is_dir() {
                 let mut directory_index : String = "index.html".to_string();
 
-                let last_char = components.path.chars().last().unwrap();
+                let last_char = components.path.chars().last().unwrap_or('/');
                 if last_char != '/' {
                     let index : String = "index.html".to_string();
                     directory_index = format!("{}{}", os_specific_separator, index);
@@ -312,7 +312,7 @@ impl StaticResourceController {
 
                 let mut directory_index : String = "index.html".to_string();
 
-                let last_char = components.path.chars().last().unwrap();
+                let last_char = components.path.chars().last().unwrap_or('/');
                 if last_char != '/' {
                     let index : String = "index.html".to_string();
                     directory_index = format!("{}{}", os_specific_separator, index);
@@ -347,7 +347,7 @@ impl StaticResourceController {
 
                     let mut directory_index : String = "index.html".to_string();
 
-                    let last_char = components.path.chars().last().unwrap();
+                    let last_char = components.path.chars().last().unwrap_or('/');
                     if last_char != '/' {
                         let index : String = "index.html".to_string();
                         directory_index = format!("{}{}", os_specific_separator, index);
